@@ -56,10 +56,19 @@ type Alt struct {
 type Target interface{}
 
 type Object struct {
-	id   int
-	name string
-	val  Value
-	typ  types.Type
+	id    int
+	name  string
+	val   Value
+	typ   types.Type
+	allocG *Term       // guard under which the object was allocated (it does not exist elsewhere)
+	dirty map[int]bool // array cells that have been written (a clean cell's content is irrelevant)
+}
+
+func (o *Object) markDirty(i int) {
+	if o.dirty == nil {
+		o.dirty = map[int]bool{}
+	}
+	o.dirty[i] = true
 }
 
 // AddrT: pointer to (a sub-location of) an object.
